@@ -46,6 +46,11 @@ def decInt? : Sexp → Option Int
   | .atom s => s.toInt?
   | _ => none
 
+/-- a non-negative integer -/
+def decNat? (x : Sexp) : Option Nat := do
+  let i ← decInt? x
+  if i < 0 then none else pure i.toNat
+
 def decBool? : Sexp → Option Bool
   | .atom "1" => some true
   | .atom "0" => some false
